@@ -12,12 +12,12 @@ from . import configs, seqcheck, engine  # noqa: E402
 
 # sequence-level properties: predicate prefixes and the configurations they are decided on
 SEQ = {
-    "C01": (["C01."], ["randsched", "typestate", "core"]),
-    "C02": (["C02."], ["core", "randsched", "eom"]),
-    "C03": (["C03."], ["core", "randsched", "eom"]),
-    "C07": (["C07."], ["core", "randsched", "eom"]),
-    "C09": (["C09."], ["core", "typestate", "randsched", "eom"]),
-    "C10": (["C10."], ["core", "randsched", "eom"]),
+    "C01": (["C01."], ["limits", "randsched", "typestate", "core"]),
+    "C02": (["C02."], ["core", "randsched", "eom", "fine", "retarget"]),
+    "C03": (["C03."], ["core", "randsched", "eom", "fine", "phasejump"]),
+    "C07": (["C07."], ["core", "randsched", "eom", "phasejump"]),
+    "C09": (["C09."], ["core", "typestate", "randsched", "eom", "limits"]),
+    "C10": (["C10."], ["core", "randsched", "eom", "fine", "retarget", "phasejump"]),
     "C13": (["C13."], ["typestate", "eom"]),
     "C15": (["C15."], ["eom", "eomdrift"]),
 }
